@@ -1162,6 +1162,42 @@ class _WSum:
         return da.reduction(a[0], _wsum_chunk, _wsum_agg, axis=s["axis"], keepdims=s["keepdims"], dtype=np.result_type(a[0].dtype, "f8"), weights=w)
 
 
+@op("add_where_out", "setitem")
+class _AddWhereOut:
+    """Functional form of `da.add(p, q, where=mask, out=o)`: o is a copy of an existing variable (sharing
+    its blocks), the ufunc fills it in place where the mask holds; result is o.  Other consumers of the
+    copied variable must keep seeing their own values."""
+
+    @staticmethod
+    def gen(D_, vals):
+        i = _pick(D_, vals, lambda v: v.ndim >= 1 and v.dtype.kind == "f" and v.size > 0)
+        if i is None:
+            return None
+        v = vals[i]
+        cands = [j for j, w in enumerate(vals) if w.shape == v.shape and w.dtype.kind in "if"]
+        return {"op": "add_where_out", "args": [i, D_.choice(cands)], "k": D_.choice([0, 1, 3]), "mod": D_.choice([2, 3])}
+
+    @staticmethod
+    def _mask(a):
+        return None
+
+    @staticmethod
+    def np(s, a):
+        o = a[0].copy()
+        m = (np.arange(o.size).reshape(o.shape) % s["mod"]) == 0
+        np.add(a[1], s["k"], out=o, where=m)
+        return o
+
+    @staticmethod
+    def da(s, a):
+        import dask_array as da
+
+        o = a[0].copy()
+        m = da.from_array((np.arange(int(np.prod(o.shape))).reshape(o.shape) % s["mod"]) == 0, chunks=o.chunks)
+        da.add(a[1], s["k"], out=o, where=m)
+        return o
+
+
 @op("setitem", "setitem")
 class _Setitem:
     """Functional form of an in-place assignment: y = copy(x); y[index] = value; result y."""
